@@ -305,6 +305,17 @@ def r5(ctx):
     gr = fr.cfg
     rs = [s for s in gr.stmts(ast.Assign) if any(tail(t) == "reexec_pid" for t in s.ast.targets) and const(s.ast.value, NO) == 0]
     ctx.check("C14.R5", bool(rs), key(fr, "reexec-reset"), site(fr), "reexec_pid is never reset when the new master exits: after a failed upgrade USR2 would be ignored forever and stop() would never unlink", "reexec_pid = 0 when that child is reaped")
+    hs = [n for n in gr.stmts(ast.Raise) if n.raised and n.raised.endswith("HaltServer")]
+    if hs:
+        def is_new_master(e):
+            c = compare(e)
+            if c and c[1] in (ast.Eq, ast.NotEq) and "reexec_pid" in norm(e):
+                return +1 if c[1] is ast.Eq else -1       # C = 'the reaped child is the re-exec'ed master'
+            return None
+        p, hits = guard_check(fr, hs, is_new_master)
+        ctx.check("C14.R5", p is None, key(fr, "boot-codes-only-for-workers"), site(fr, hs[0]),
+                  "the worker boot-failure exit codes are also applied to the re-exec'ed master: when a failed upgrade exits with 3/4 the OLD master halts too instead of carrying on alone",
+                  "HaltServer only for workers", path=p and gr.fmt_path(p))
     for s in rs:
         def same(e):
             c = compare(e)
